@@ -20,11 +20,13 @@ CONSTANTS
   PartNames,    \* partitions a request may name
   TraitSets,    \* trait sets a request may carry in its traits field
   Quantities,   \* spelled demands [cpu, memory, disk] a request may carry
+  Reconfs,      \* sequence of <<cell, part, spelled partition record>> the environment may
+                \* write at any moment (smaller capacity, smaller / new / no limits, ...)
   MaxSteps
 
-VARIABLES st, last, n
+VARIABLES st, last, dirty, n
 
-vars == <<st, last, n>>
+vars == <<st, last, dirty, n>>
 
 (* MaxSteps < 0: unbounded (exhaustive runs; the reachable set is finite);  *)
 (* MaxSteps >= 0: histories of exactly that many requests (generation)      *)
@@ -46,12 +48,23 @@ Reqs == {Req(p, FALSE, {}, qq) : p \in PartNames, qq \in Quantities}
 
 Init == /\ st \in {[parts |-> TableVal(tb), res |-> [j \in {} |-> 0]] : tb \in PartTables}
         /\ last = "none"
+        /\ dirty = {}
         /\ n = 0
+
+(* `dirty`: the constraints a reconfiguration left oversubscribed and no     *)
+(* accepted request has vouched for since.  An accepted request vouches for *)
+(* the capacity of its partition and for the limits of the traits the       *)
+(* stored reservation carries.                                              *)
+Vouched(s, id, r) ==
+  LET e == Effective(s, id, r) IN
+  {<<id.cell, e.part, "">>} \cup {<<id.cell, e.part, t>> : t \in e.traits}
+StillOver(s, cs) == {c \in cs : ~Holds(s, c)}
 
 Submit(id, r) ==
   LET out == Outcome(st, id, r) IN
   /\ last' = (IF out = "crash" THEN "crash" ELSE "none")
   /\ st' = After(st, id, r, out)
+  /\ dirty' = IF out = "ok" THEN StillOver(st', dirty \ Vouched(st, id, r)) ELSE dirty
   /\ n' = Tick
 
 Create(id, r) ==
@@ -70,15 +83,27 @@ Delete(id) ==
   /\ id \in Present(st)
   /\ st' = Drop(st, id)
   /\ last' = "none"
+  /\ dirty' = StillOver(st', dirty)
+  /\ n' = Tick
+
+Reconfigure(i) ==
+  /\ Budget
+  /\ st' = Reconf(st, Reconfs[i][1], Reconfs[i][2], PartVal(Reconfs[i][3]))
+  /\ st' # st
+  /\ last' = "none"
+  /\ dirty' = StillOver(st', dirty \cup Constraints(st'))
   /\ n' = Tick
 
 Next == \/ \E id \in Ids, r \in Reqs : Create(id, r)
         \/ \E id \in Ids, r \in Reqs : Update(id, r)
         \/ \E id \in Ids : Delete(id)
+        \/ \E i \in DOMAIN Reconfs : Reconfigure(i)
 
 Spec == Init /\ [][Next]_vars
 
 -----------------------------------------------------------------------------
-InvReserve == InvC19(st)
+(* every constraint holds, except those a reconfiguration oversubscribed and *)
+(* nothing has been admitted under since (= InvC19 when Reconfs is empty)   *)
+InvReserve == \A c \in Constraints(st) \ dirty : Holds(st, c)
 InvNoCrash == last # "crash"
 =============================================================================
